@@ -243,6 +243,57 @@ class C15(core.Check):
             app = self.apps[k] = self.cherrypy.Application(self.root, '', conf)
         return app
 
+    def extra(self):
+        """a handler whose body iterator yields part of the body and then fails: no 200 response with that body ever
+        existed, so a later GET of the same URL must reach the handler again and never be answered with the truncated
+        body from the cache (both ways the tee can be what drains the body: streamed, and not streamed with
+        tools.encode off).  Oracle only."""
+        cherrypy = self.cherrypy
+        out = []
+        calls = []
+
+        class Root:
+            @cherrypy.expose
+            def page(self, **kw):
+                calls.append(1)
+                n = len(calls)
+                fail = kw.get('fail') == '1' and n == 1
+
+                def body():
+                    yield ('head of generation %d|' % n).encode()
+                    if fail:
+                        raise ValueError('fault in mid-body')
+                    yield ('tail of generation %d' % n).encode()
+                return body()
+        for stream in (False, True):
+            if hasattr(cherrypy, '_cache'):
+                del cherrypy._cache
+            del calls[:]
+            conf = {'/': {'tools.caching.on': True, 'tools.caching.delay': 600, 'tools.caching.antistampede_timeout': 0,
+                          'tools.encode.on': False, 'response.stream': stream, 'request.show_tracebacks': False}}
+            app = cherrypy.Application(Root(), '', conf)
+            self.clock.now = BASE
+            r1 = wsgi.call(app, 'GET', '/page?fail=1', [])
+            self.clock.now = BASE + 1
+            r2 = wsgi.call(app, 'GET', '/page?fail=1', [])
+            self.count('mid-body fault then GET (%s)' % ('streamed' if stream else 'not streamed'))
+            full2 = b'head of generation 2|tail of generation 2'
+            obs = {'first': [r1['status'], r1['body'].decode('latin-1')[:80]],
+                   'second': [r2['status'], r2['body'].decode('latin-1')[:80], wsgi.header(r2, 'Age')],
+                   'handler_calls': len(calls)}
+            if len(calls) != 2 or r2['status'] != 200 or r2['body'] != full2:
+                out.append(core.Violation(
+                    'truncated-response-cached',
+                    'the body iterator of GET /page failed after its first chunk (%s); the next GET was answered %s %r '
+                    '(Age %s) with %d handler calls in all: a response the handler never completed was served from '
+                    'the cache' % ('streamed' if stream else 'not streamed, tools.encode off', r2['status'],
+                                   r2['body'][:60], wsgi.header(r2, 'Age'), len(calls)),
+                    case={'k': 'mid-body-fault', 'stream': stream}, observed=obs))
+                break
+        if hasattr(cherrypy, '_cache'):
+            del cherrypy._cache
+        return out
+
     # ------------------------------------------------------------- generation
     def gen_cc(self, rng, delay):
         r = rng.random()
